@@ -162,6 +162,8 @@ qb_rb_open_2(const char *name, size_t size, uint32_t flags,
 	if (rb == NULL) {
 		return NULL;
 	}
+	/* nothing is mapped yet: the cleanup code tests for this value */
+	rb->shared_hdr = MAP_FAILED;
 
 	/*
 	 * Create a shared_hdr memory segment for the header.
